@@ -1,9 +1,9 @@
 (* Tokens of the yara-x formatter (fmt/src/tokens/mod.rs, `enum Token`).
 
-   Payloads: byte strings (`&[u8]`, `Vec<Vec<u8>>`) are represented by an
-   interned id (N) -- the formatter's processors only compare payloads for
-   equality; grammar rule kinds (`SyntaxKind`, repr(u16)) by their
-   discriminant; the argument of `Indentation` by a Z.
+   Payloads: byte strings (`&[u8]`) are lists of bytes (N), the lines of the
+   typed comments (`Vec<Vec<u8>>`) lists of byte lists; grammar rule kinds
+   (`SyntaxKind`, repr(u16)) by their discriminant; the argument of
+   `Indentation` by a Z.
 
    The constructor list is checked against the Rust enum by
    translate/gen_fmtrules.py; the category of every constructor and the
@@ -23,18 +23,31 @@ Inductive token :=
 | TAlignmentMarker
 | TWhitespace
 | TTab
-| TComment (s : N)
-| TBlockComment (s : N)
-| THeadComment (s : N)
-| TTailComment (s : N)
-| TInlineComment (s : N)
+| TComment (s : list N)
+| TBlockComment (l : list (list N))
+| THeadComment (l : list (list N))
+| TTailComment (l : list (list N))
+| TInlineComment (l : list (list N))
 | TNewline
-| TIdentifier (s : N)
-| TKeyword (s : N)
-| TPunctuation (s : N)
-| TLiteral (s : N)
-| TLGrouping (s : N)
-| TRGrouping (s : N).
+| TIdentifier (s : list N)
+| TKeyword (s : list N)
+| TPunctuation (s : list N)
+| TLiteral (s : list N)
+| TLGrouping (s : list N)
+| TRGrouping (s : list N).
+
+Fixpoint bytes_eqb (a b : list N) : bool :=
+  match a, b with
+  | [], [] => true
+  | x :: a', y :: b' => N.eqb x y && bytes_eqb a' b'
+  | _, _ => false
+  end.
+Fixpoint lines_eqb (a b : list (list N)) : bool :=
+  match a, b with
+  | [], [] => true
+  | x :: a', y :: b' => bytes_eqb x y && lines_eqb a' b'
+  | _, _ => false
+  end.
 
 (* derived PartialEq *)
 Definition token_eqb (a b : token) : bool :=
@@ -50,18 +63,18 @@ Definition token_eqb (a b : token) : bool :=
   | TAlignmentMarker, TAlignmentMarker => true
   | TWhitespace, TWhitespace => true
   | TTab, TTab => true
-  | TComment x, TComment y => N.eqb x y
-  | TBlockComment x, TBlockComment y => N.eqb x y
-  | THeadComment x, THeadComment y => N.eqb x y
-  | TTailComment x, TTailComment y => N.eqb x y
-  | TInlineComment x, TInlineComment y => N.eqb x y
+  | TComment x, TComment y => bytes_eqb x y
+  | TBlockComment x, TBlockComment y => lines_eqb x y
+  | THeadComment x, THeadComment y => lines_eqb x y
+  | TTailComment x, TTailComment y => lines_eqb x y
+  | TInlineComment x, TInlineComment y => lines_eqb x y
   | TNewline, TNewline => true
-  | TIdentifier x, TIdentifier y => N.eqb x y
-  | TKeyword x, TKeyword y => N.eqb x y
-  | TPunctuation x, TPunctuation y => N.eqb x y
-  | TLiteral x, TLiteral y => N.eqb x y
-  | TLGrouping x, TLGrouping y => N.eqb x y
-  | TRGrouping x, TRGrouping y => N.eqb x y
+  | TIdentifier x, TIdentifier y => bytes_eqb x y
+  | TKeyword x, TKeyword y => bytes_eqb x y
+  | TPunctuation x, TPunctuation y => bytes_eqb x y
+  | TLiteral x, TLiteral y => bytes_eqb x y
+  | TLGrouping x, TLGrouping y => bytes_eqb x y
+  | TRGrouping x, TRGrouping y => bytes_eqb x y
   | _, _ => false
   end.
 
